@@ -1,0 +1,13 @@
+//go:build verif
+
+// Verification hooks (build tag verif) for property C07: the selector table. No behaviour.
+package simple8b
+
+// VerifSelectorTable returns (number of values, bits per value) of the 16 selectors.
+func VerifSelectorTable() [][2]int {
+	out := make([][2]int, 0, len(selector))
+	for _, p := range selector {
+		out = append(out, [2]int{p.n, p.bit})
+	}
+	return out
+}
